@@ -203,16 +203,75 @@ def run(repo, rep, tier):
         raise AnalysisError('_mof_escaped: escape chain not found')
     env = module_env(repo, mof)
 
-    def const(name):
-        node = mof.consts.get(name)
+    def token_pattern(fname):
+        """the constant pattern of a lexer rule (docstring or @TOKEN)"""
+        tf = mof.functions.get(fname)
+        if tf is None:
+            raise AnalysisError('lexer rule %s vanished' % fname)
+        node = None
+        for d_ in tf.node.decorator_list:
+            if isinstance(d_, ast.Call) and \
+                    (dotted(d_.func) or '').endswith('TOKEN') and d_.args:
+                node = d_.args[0]
+        if node is None and tf.node.body and \
+                isinstance(tf.node.body[0], ast.Expr) and \
+                isinstance(tf.node.body[0].value, ast.Constant):
+            node = tf.node.body[0].value
         if node is None:
-            raise AnalysisError('%s vanished from _mof_compiler' % name)
+            raise AnalysisError('lexer rule %s has no pattern' % fname)
         try:
-            return fold_const(node, env)
+            pat = fold_const(node, env)
         except NotConst:
-            raise AnalysisError('%s is not a constant' % name)
-    simple = rx.alphabet(rx.parse(const('simpleEscape')))
-    hexre = re.compile(const('hexEscape') + r'\Z')
+            raise AnalysisError('pattern of %s is not a constant' % fname)
+        if not isinstance(pat, str):
+            raise AnalysisError('pattern of %s is not a string' % fname)
+        return pat
+    # the string / char token patterns are the lexer's word on what may
+    # stand between the quotes; what they admit is asked of the patterns
+    # themselves (not of how they are assembled from sub-patterns)
+    STR_RE = re.compile(token_pattern('t_stringValue'))
+    CHR_RE = re.compile(token_pattern('t_charValue'))
+
+    def lexer_admits(text, string=True):
+        return bool((STR_RE if string else CHR_RE).fullmatch(
+            ('"%s"' if string else "'%s'") % text))
+    PROBE = [chr(i) for i in range(32, 127)]
+    simple = {c for c in PROBE if lexer_admits('\\' + c) and
+              lexer_admits('\\' + c, False)}
+    if len(simple) < 4:
+        raise AnalysisError('lexer patterns admit only %d simple escapes'
+                            % len(simple))
+
+    def hex_bounds(tree):
+        """(min, max) digits of the hex escape: a bounded repeat of a hex
+        digit class that follows an x/X class"""
+        out = []
+
+        def hexclass(av):
+            try:
+                cs = rx.class_chars(av)
+            except Exception:           # pylint: disable=broad-except
+                return False
+            return cs is not rx.ALL and cs and \
+                set(cs) <= set('0123456789abcdefABCDEF') and len(cs) >= 16
+
+        def walk(seq):
+            for i, (op, av) in enumerate(seq):
+                so = str(op)
+                if so in ('MAX_REPEAT', 'MIN_REPEAT'):
+                    body = list(av[2])
+                    if len(body) == 1 and str(body[0][0]) == 'IN' and \
+                            hexclass(body[0][1]) and i > 0 and \
+                            str(seq[i - 1][0]) in ('IN', 'LITERAL'):
+                        out.append((av[0], av[1]))
+                    walk(body)
+                elif so == 'SUBPATTERN':
+                    walk(list(av[3]))
+                elif so == 'BRANCH':
+                    for alt in av[1]:
+                        walk(list(alt))
+        walk(list(tree))
+        return out
     rmap = reader_map(fix)
     if len(rmap) < 6:
         raise AnalysisError('_fixStringValue: escape branches not found')
@@ -222,8 +281,7 @@ def run(repo, rep, tier):
     for ch, e in wmap.items():
         r1.sites += 1
         ok = e.startswith('\\') and len(e) >= 2
-        lex_ok = ok and (e[1] in simple and len(e) == 2 or
-                         bool(hexre.match(e[1:])))
+        lex_ok = ok and lexer_admits(e) and lexer_admits(e, False)
         if ok and len(e) == 2:
             back = rmap.get(e[1])
             read_ok = back == ch
@@ -254,9 +312,11 @@ def run(repo, rep, tier):
     widths = {len(e) - 2 for e in wmap.values()
               if len(e) > 2 and e[1] in 'xX'}
     lex_max = None
-    for op, av in rx.parse(const('hexEscape')):
-        if str(op) in ('MAX_REPEAT', 'MIN_REPEAT'):
-            lex_max = av[1] if isinstance(av[1], int) else None
+    hb = hex_bounds(rx.parse(STR_RE.pattern))
+    if hb:
+        mx = {b for _a, b in hb}
+        lex_max = list(mx)[0] if len(mx) == 1 and \
+            isinstance(list(mx)[0], int) and list(mx)[0] < 1000 else None
     read_max = None
     hexbranch = None
     for n in walk_no_nested(fix.node):
@@ -310,19 +370,8 @@ def run(repo, rep, tier):
                         '_fixStringValue has no branch for it: the character '
                         'silently disappears from the compiled value' % c)
     for tok, const_name in (('sChar', 'sChar'), ('cChar', 'cChar')):
-        pat = const(const_name)
-        first = rx.parse(pat)
-        # first alternative is the negated class of raw-excluded characters
-        excluded = set()
-        for op, av in first:
-            if str(op) == 'BRANCH':
-                for alt in av[1]:
-                    for op2, av2 in alt:
-                        if str(op2) == 'IN' and any(
-                                str(o) == 'NEGATE' for o, _ in av2):
-                            for o, v in av2:
-                                if str(o) == 'LITERAL':
-                                    excluded.add(chr(v))
+        excluded = {c for c in [chr(i) for i in range(0, 128)]
+                    if not lexer_admits(c, tok == 'sChar')}
         if not excluded:
             raise AnalysisError('%s: raw-excluded class not found' % tok)
         quote = '"' if tok == 'sChar' else "'"
@@ -717,7 +766,9 @@ def _r8_symbols_consumed(repo, rep):
         r8.functions.add(f.fq)
         reads = {}
         generic = False
-        for st, (facts, _t) in stmt_facts(f.node).items():
+        from ..inline import Flat
+        from ..cfg import expr_guards
+        for st, (facts, _t) in stmt_facts(Flat(f).node).items():
             if isinstance(st, (ast.If, ast.While)):
                 exprs = [st.test]
             elif isinstance(st, ast.For):
@@ -738,6 +789,20 @@ def _r8_symbols_consumed(repo, rep):
                     if m2:
                         lens.add(('isinstance', int(m2.group(1)),
                                   m2.group(2), q))
+            def lens_of(fact_list):
+                out_ = set()
+                for t, pol in fact_list:
+                    for a, q in GuardWalker._atoms(t, pol):
+                        m = _re.fullmatch(
+                            r'len\(p\) (==|!=|>|>=|<|<=) (\d+)', norm(a))
+                        if m:
+                            out_.add((m.group(1), int(m.group(2)), q))
+                        m2 = _re.fullmatch(
+                            r'isinstance\(p\[(\d+)\], (\w+)\)', norm(a))
+                        if m2:
+                            out_.add(('isinstance', int(m2.group(1)),
+                                      m2.group(2), q))
+                return out_
             for e in exprs:
                 for x in ast.walk(e):
                     if isinstance(x, ast.Subscript) and \
@@ -745,7 +810,11 @@ def _r8_symbols_consumed(repo, rep):
                             isinstance(x.ctx, ast.Load):
                         if isinstance(x.slice, ast.Constant) and \
                                 isinstance(x.slice.value, int):
-                            reads.setdefault(x.slice.value, []).append(lens)
+                            # conditions inside the expression (conditional
+                            # expressions, and/or) guard the read as well
+                            inner = lens_of(expr_guards(e, x))
+                            reads.setdefault(x.slice.value, []).append(
+                                lens | inner)
                         else:
                             generic = True
                     elif isinstance(x, ast.Call) and any(
